@@ -134,6 +134,9 @@ func runC08(p *Prog, r *Report) {
 	if want("C08.9") {
 		ruleIOErrorNotCorruption(p, r, "C08.9")
 	}
+	if want("C08.11") {
+		ruleRetrySnapshotsAreCopies(p, r, "C08.11")
+	}
 	if want("C08.10") {
 		ruleJournalRecoveryOrder(p, r, "C08.10")
 	}
